@@ -55,8 +55,9 @@ def replay(path):
     go_build("mjsrun", binp, overlay=False)
     p = m["program"]
     want, _ = oracle.tlc_eval([p], wd, "r")
-    got = oracle.goja_run(binp, [p], wd, "r")
-    print(mjgen.print_js(p))
+    variant = m.get("variant", "base")
+    got = oracle.goja_run(binp, [p], wd, "r", variant=variant)
+    print(mjgen.print_js(p, variant=variant))
     print("specified:", want[p["id"]])
     print("goja     :", got[p["id"]])
     if oracle.agree(p, want[p["id"]], got[p["id"]]):
